@@ -4,11 +4,13 @@ import (
 	"context"
 	"fmt"
 	"strings"
+	"sync"
 	"testing"
 	"time"
 
 	"tunnox-core/internal/cloud/models"
 	"tunnox-core/internal/core/storage/hybrid"
+	"tunnox-core/internal/core/storage/memory"
 	"tunnox-core/internal/packet"
 	"tunnox-core/internal/security"
 	"tunnox-core/verif/vkit"
@@ -209,5 +211,233 @@ func TestStateChangeRace(t *testing.T) {
 			vkit.Case("state-race/"+kind, out.landed, fmt.Sprint(kind, k))
 		}
 		vkit.Exhaustive("state-change-landing-points/"+kind, complete)
+	}
+}
+
+// ---------------------------------------------------------------------------
+// TestTunnelIDReuseRace — "a connection is attached only to a tunnel of a mapping it is entitled to",
+// against a tunnel id that changes hands while the request is being authorised. Tunnel ids are chosen
+// by the listening client and any id that is currently free is accepted. The target client of mapping
+// M1 asks to attach to tunnel id X (bridge B1 of M1 is waiting for it); at one of the mapping-record
+// reads the server makes while handling that request, B1 ends, its table entry goes away, and the
+// listening client of ANOTHER mapping M2 opens a tunnel under the same id X. The landing point is
+// enumerated over every such read. Whatever the request is then told, the requester (entitled to M1
+// only) must not end up attached to M2's tunnel and must not receive bytes M2's source writes.
+
+type ReuseCase struct {
+	IDReuse string `json:"tunnel_id_reuse"` // credential the requester presents: right-secret | mapping-id
+	LandAt  int    `json:"land_at"`         // the swap happens at this read (0-based) of M1's record during the request
+}
+
+type hookCache struct {
+	*memory.Storage
+	mu    sync.Mutex
+	match string
+	seen  int
+	at    int
+	fn    func()
+}
+
+func (h *hookCache) Get(key string) (any, error) {
+	h.mu.Lock()
+	var run func()
+	if h.fn != nil && h.match != "" && strings.Contains(key, h.match) {
+		if h.seen == h.at {
+			run, h.fn = h.fn, nil
+		}
+		h.seen++
+	}
+	h.mu.Unlock()
+	if run != nil {
+		run()
+	}
+	return h.Storage.Get(key)
+}
+
+type reuseOutcome struct {
+	key, detail string
+	reads       int
+	swapped     bool
+}
+
+func runIDReuse(c ReuseCase) (reuseOutcome, error) {
+	var out reuseOutcome
+	hcache := &hookCache{Storage: memory.New(context.Background())}
+	hc := hybrid.DefaultConfig()
+	hc.EnablePersistent = false
+	st := hybrid.NewWithSharedCache(context.Background(), hcache, nil, nil, hc)
+	defer st.Close()
+	srv, err := miniserver.New(miniserver.Options{
+		Storage:    st,
+		BruteForce: &security.BruteForceConfig{MaxFailures: 100000, TimeWindow: time.Hour, BanDuration: time.Hour, PermanentBanAt: 1000000, CleanupInterval: time.Hour},
+		IPRate:     &security.RateLimitConfig{Rate: 100000, Burst: 100000, TTL: time.Hour},
+	})
+	if err != nil {
+		return out, err
+	}
+	defer srv.Close()
+	type cred struct {
+		id     int64
+		secret string
+	}
+	who := map[string]cred{}
+	for _, n := range []string{"L1", "T1", "L2", "T2"} {
+		cl, err := srv.Cloud.GenerateAnonymousCredentials()
+		if err != nil {
+			return out, err
+		}
+		who[n] = cred{cl.ID, cl.SecretKeyPlaintext}
+	}
+	mk := func(l, t string, port int, secret string) (*models.PortMapping, error) {
+		return srv.Cloud.CreatePortMapping(&models.PortMapping{ListenClientID: who[l].id, TargetClientID: who[t].id, Protocol: models.ProtocolTCP,
+			SourcePort: port, TargetHost: "127.0.0.1", TargetPort: 3306, SecretKey: secret, Status: models.MappingStatusActive})
+	}
+	m1, err := mk("L1", "T1", 17788, "mapping-one-secret-0123456789abcdef")
+	if err != nil {
+		return out, err
+	}
+	m2, err := mk("L2", "T2", 17789, "mapping-two-secret-fedcba9876543210")
+	if err != nil {
+		return out, err
+	}
+	login := func(addr, n string) (*miniserver.Client, error) {
+		cl, err := srv.Connect(addr)
+		if err != nil {
+			return nil, err
+		}
+		if r, err := cl.Login(who[n].id, who[n].secret, "tunnel"); err != nil || r == nil || !r.Success {
+			return nil, fmt.Errorf("setup: login of %s failed: %+v %v", n, r, err)
+		}
+		return cl, nil
+	}
+	src1, err := login("5.5.5.1:1001", "L1")
+	if err != nil {
+		return out, err
+	}
+	src2, err := login("5.5.5.2:1002", "L2")
+	if err != nil {
+		return out, err
+	}
+	rq, err := login("6.6.6.6:6006", "T1")
+	if err != nil {
+		return out, err
+	}
+	tid := "tcp-tunnel-1790000000000000001-17788"
+	if ack, _, _ := tunnelOpen(src1, &packet.TunnelOpenRequest{MappingID: m1.ID, TunnelID: tid}, 2*time.Second); ack == nil || !ack.Success {
+		return out, fmt.Errorf("setup: listening client of M1 could not open the tunnel: %+v", ack)
+	}
+	time.Sleep(2 * time.Millisecond)
+	var swapErr error
+	swap := func() {
+		out.swapped = true
+		b1 := srv.SM.GetTunnelBridgeByMappingID(m1.ID, 0)
+		if b1 == nil {
+			swapErr = fmt.Errorf("bridge of M1 not found")
+			return
+		}
+		b1.Close() // end of tunnel B1
+		deadline := time.Now().Add(3 * time.Second)
+		for srv.SM.GetTunnelBridgeByMappingID(m1.ID, 0) != nil {
+			if time.Now().After(deadline) {
+				swapErr = fmt.Errorf("ended bridge of M1 still registered after 3s")
+				return
+			}
+			time.Sleep(200 * time.Microsecond)
+		}
+		if ack, _, _ := tunnelOpen(src2, &packet.TunnelOpenRequest{MappingID: m2.ID, TunnelID: tid}, 2*time.Second); ack == nil || !ack.Success {
+			swapErr = fmt.Errorf("listening client of M2 could not open a tunnel under the freed id: %+v", ack)
+		}
+	}
+	hcache.mu.Lock()
+	hcache.match, hcache.seen, hcache.at, hcache.fn = m1.ID, 0, c.LandAt, swap
+	hcache.mu.Unlock()
+	req := &packet.TunnelOpenRequest{MappingID: m1.ID, TunnelID: tid}
+	if c.IDReuse == "right-secret" {
+		req.SecretKey = m1.SecretKey
+	}
+	ack, perr, done := tunnelOpen(rq, req, 6*time.Second)
+	select {
+	case <-done:
+	case <-time.After(6 * time.Second):
+		return out, fmt.Errorf("the request did not return (swap error: %v)", swapErr)
+	}
+	hcache.mu.Lock()
+	out.reads = hcache.seen
+	hcache.fn = nil
+	hcache.match = ""
+	hcache.mu.Unlock()
+	if swapErr != nil {
+		return out, fmt.Errorf("swap: %v", swapErr)
+	}
+	if !out.swapped {
+		return out, nil
+	}
+	// ---- oracle
+	bad := ""
+	if br := srv.SM.GetTunnelBridgeByConnectionID(rq.ConnID); br != nil && br.GetMappingID() == m2.ID {
+		bad = "the requester's connection is attached to the tunnel of mapping M2"
+	}
+	if b2 := srv.SM.GetTunnelBridgeByMappingID(m2.ID, 0); bad == "" && b2 != nil && b2.GetTargetConnectionID() != "" {
+		// nobody entitled to M2 has asked for its tunnel in this history
+		bad = "the tunnel of mapping M2 has a target connection (" + b2.GetTargetConnectionID() + ") although only M1's target client asked to attach"
+	}
+	probe := []byte("PROBE-SECRET-FROM-SOURCE-OF-M2")
+	src2.Near.Write(probe)
+	wait := 25 * time.Millisecond
+	if bad != "" || (ack != nil && ack.Success) {
+		wait = 300 * time.Millisecond
+	}
+	deadline := time.Now().Add(wait)
+	var got []byte
+	for time.Now().Before(deadline) {
+		buf := make([]byte, 256)
+		n, _ := rq.Near.ReadWithTimeout(buf, time.Until(deadline))
+		got = append(got, buf[:n]...)
+		if strings.Contains(string(got), "PROBE-SECRET") {
+			break
+		}
+	}
+	if strings.Contains(string(got), "PROBE-SECRET") {
+		if bad != "" {
+			bad += "; "
+		}
+		bad += "the requester read bytes written by M2's source"
+	}
+	if bad != "" {
+		out.key = "C04/attached-to-tunnel-of-other-mapping/tunnel-id-reused-during-authorisation/cred=" + c.IDReuse
+		out.detail = fmt.Sprintf("target client of M1 asked to attach to tunnel id %q (cred %s); at read %d of M1's record the tunnel of M1 ended and the listening client of M2 opened a tunnel under the same id; then: %s (ack=%+v push error=%v)",
+			tid, c.IDReuse, c.LandAt, bad, ack, perr)
+	}
+	return out, nil
+}
+
+func TestTunnelIDReuseRace(t *testing.T) {
+	idx := 0
+	for _, cr := range []string{"right-secret", "mapping-id"} {
+		dry, err := runIDReuse(ReuseCase{IDReuse: cr, LandAt: 1 << 20})
+		if err != nil {
+			vkit.Violation(t, "C04/harness/id-reuse-setup", err.Error(), ReuseCase{IDReuse: cr, LandAt: 1 << 20})
+			return
+		}
+		vkit.Extra("id_reuse_reads_of_mapping_record/"+cr, dry.reads)
+		for k := 0; k < dry.reads; k++ {
+			idx++
+			if !vkit.Mine(idx) {
+				continue
+			}
+			c := ReuseCase{IDReuse: cr, LandAt: k}
+			out, err := runIDReuse(c)
+			if err != nil {
+				vkit.Violation(t, "C04/harness/id-reuse-setup", err.Error(), c)
+				return
+			}
+			if out.key != "" {
+				vkit.Violation(t, out.key, out.detail, c)
+				vkit.Case("known:id-reuse/"+cr, true, fmt.Sprint(cr, k))
+				continue
+			}
+			vkit.Case("id-reuse/"+cr, out.swapped, fmt.Sprint(cr, k))
+		}
+		vkit.Exhaustive("tunnel-id-reuse-landing-points/"+cr, true)
 	}
 }
